@@ -701,6 +701,8 @@ def get_target(token, base_url):
 
         if args:
             counter_style = get_keyword(args.pop(0))
+            if counter_style is None:
+                return
         else:
             counter_style = 'decimal'
         values.append(counter_style)
